@@ -2,6 +2,7 @@
   C06 — queued responses reach the stream completely, once, in order, under short writes.
 -/
 import MicroHttp.ConnSpec
+import MicroHttp.Proofs.WriteSide
 namespace MicroHttp.C06
 open MicroHttp
 variable {RL H : Type}
@@ -12,11 +13,11 @@ def unsent (c : Conn RL H) : List Byte := (c.respBuf.getD []) ++ c.respQ.flatMap
 /-- Pending output is reported exactly while some byte remains unsent. -/
 theorem pending_iff (P : Params RL H) (c : Conn RL H) (hI : Inv P c) :
     pendingWrite c = true ↔ unsent c ≠ [] := by
-  sorry
+  exact pending_iff' c hI.rbuf
 
 theorem enqueue_unsent (c : Conn RL H) (r : Response) :
     unsent (enqueue c r) = unsent c ++ r.serialize := by
-  sorry
+  exact enqueue_unsent' c r
 
 /-- One `try_write`, whatever the stream does with the single `write` call:
     * success (incl. a short or interrupted write): the accepted bytes are exactly the next
@@ -33,7 +34,8 @@ theorem tryWrite_spec (P : Params RL H) (c : Conn RL H) (hI : Inv P c) (w : Sink
     (∀ k, w = .accept k → unsent c ≠ [] → out = .ok ∧ bytes ≠ []) ∧
     (w = .interrupted → unsent c ≠ [] → out = .ok ∧ bytes = []) ∧
     ((w = .zero ∨ w = .fail) → unsent c ≠ [] → out = .closed) := by
-  sorry
+  obtain ⟨s1, s2, s3, s4, s5, s6, s7, _⟩ := tryWrite_spec' c hI.rbuf w c' out bytes called h
+  exact ⟨s1, s2, s3, s4, s5, s6, s7⟩
 
 /-- enqueue / write operations on the output side -/
 inductive WOp
@@ -56,7 +58,45 @@ def runW : Conn RL H → List Byte → List Byte → List WOp → Conn RL H × L
 theorem history_prefix (P : Params RL H) (L : Nat) (ops : List WOp)
     (c : Conn RL H) (sent queued : List Byte) (h : runW (Conn.new L : Conn RL H) [] [] ops = (c, sent, queued)) :
     sent ++ unsent c = queued ∧ sent <+: queued ∧ (pendingWrite c = true ↔ sent ≠ queued) := by
-  sorry
+  have _ := P  -- (the statement's `P` is not needed: only the `rbuf` clause of the invariant matters)
+  have gen : ∀ (ops : List WOp) (c0 : Conn RL H) (s0 q0 : List Byte), RB c0 → s0 ++ unsent c0 = q0 →
+      ∀ c sent queued, runW c0 s0 q0 ops = (c, sent, queued) → sent ++ unsent c = queued ∧ RB c := by
+    intro ops
+    induction ops with
+    | nil =>
+      intro c0 s0 q0 hR hs c sent queued h
+      simp only [runW, Prod.mk.injEq] at h
+      obtain ⟨rfl, rfl, rfl⟩ := h
+      exact ⟨hs, hR⟩
+    | cons op ops ih =>
+      intro c0 s0 q0 hR hs c sent queued h
+      cases op with
+      | enq r =>
+        simp only [runW] at h
+        refine ih _ _ _ (RB_enqueue c0 r hR) ?_ c sent queued h
+        show s0 ++ unsent' (enqueue c0 r) = _
+        rw [enqueue_unsent', ← List.append_assoc]
+        exact congrArg (· ++ r.serialize) hs
+      | write w =>
+        simp only [runW] at h
+        cases htw : tryWrite c0 w with
+        | mk c1 rest =>
+          obtain ⟨out, bytes, called⟩ := rest
+          rw [htw] at h
+          obtain ⟨k1, k2, k3⟩ := write_step_hist c0 hR w s0 q0 hs c1 out bytes called htw
+          cases out with
+          | closed =>
+            simp only at h
+            exact ih c1 [] [] k1 (by rw [List.nil_append]; exact k2 rfl) c sent queued h
+          | ok =>
+            simp only at h
+            exact ih c1 _ _ k1 (k3 (by simp)) c sent queued h
+          | invalidWrite =>
+            simp only at h
+            exact ih c1 _ _ k1 (k3 (by simp)) c sent queued h
+  obtain ⟨g1, g2⟩ := gen ops (Conn.new L) [] [] (RB_new L) (by simp [unsent, Conn.new]) c sent queued h
+  obtain ⟨g3, g4⟩ := hist_final c g2 sent queued g1
+  exact ⟨g1, g3, g4⟩
 
 example : unsent (enqueue (Conn.new 0 : Conn0) (Response.new .http11 .ok)) ≠ [] := by decide
 
